@@ -327,17 +327,23 @@ impl RegretParams {
             strat.fill(0.0);
             strat[ind] = 1.0;
         } else {
-            let max = cum_reg
+            // shift by the regret with the largest weighted value so the exponents are
+            // non-positive and can't overflow
+            let shift = cum_reg
                 .into_floats_mut()
                 .map(|&mut v| v)
-                .reduce(f64::max)
+                .reduce(if self.no_positive > 0.0 {
+                    f64::max
+                } else {
+                    f64::min
+                })
                 .unwrap();
             let norm: f64 = cum_reg
                 .into_floats_mut()
-                .map(|&mut reg| ((reg - max) * self.no_positive).exp())
+                .map(|&mut reg| ((reg - shift) * self.no_positive).exp())
                 .sum();
             for (&mut reg, val) in cum_reg.into_floats_mut().zip(strat.iter_mut()) {
-                *val = ((reg - max) * self.no_positive).exp() / norm;
+                *val = ((reg - shift) * self.no_positive).exp() / norm;
             }
         }
     }
